@@ -23,7 +23,7 @@ func init() {
 		Assumptions: []string{"Of/OfMany compared only on ascending (merged) lists, sizes >= 0, positions >= 0 (Of's stated domain)", "Builder compared as a set; extra zero words are allowed",
 			"Get/Get1 probed only inside the bitmap"},
 		Flavours: releaseAnd386,
-		Required: []string{"long-run/calls>=100000-per-function", "builder/hint-near-maxint32", "arguments-in-read-only-memory", "of/empty-list", "of/n-absent", "of/n-absent-as-empty-non-nil-variadic", "of/n-negative", "of/n<last+1", "of/n>last+1", "of/last%64=63", "of/last%64=0", "probe/negative", "probe/beyond", "probe/maxint32", "probe/minint32",
+		Required: []string{"long-run/calls>=100000-per-function", "positions-up-to-maxint32", "builder/hint-near-maxint32", "arguments-in-read-only-memory", "of/empty-list", "of/n-absent", "of/n-absent-as-empty-non-nil-variadic", "of/n-negative", "of/n<last+1", "of/n>last+1", "of/last%64=63", "of/last%64=0", "probe/negative", "probe/beyond", "probe/maxint32", "probe/minint32",
 			"ofmany/pos>=size", "ofmany/size=0", "ofmany/empty-sub", "ofmany/segments-carved-from-one-arena", "ofmany/shifted-list-not-ascending", "builder/extend-pos>=size", "builder/extend-size=0", "builder/extend-empty", "builder/set-0", "builder/set-1", "builder/presized", "builder/over-dirty-capacity", "roundtrip/trailing-zero-words", "probe/bitmap>=2^31-bits"},
 		Families: func(c *mon.Config) []mon.Family {
 			return []mon.Family{
@@ -39,6 +39,7 @@ func init() {
 				{Name: "builder", Env: 6, N: c.Pick(60000, 10000000), Run: c12Builder},
 				{Name: "big-lists", Env: 3, N: 7 * c.Pick(2, 60), Run: c12Big},
 				{Name: "huge-bitmap-probes", N: 1, Run: c12Huge},
+				{Name: "top-of-int32", NoCold: true, N: b2i(c.Base() != "386"), Run: c12Top},
 				lrFamily(c12LongRun),
 			}
 		},
@@ -779,4 +780,77 @@ func c12Huge(w *mon.W, _ int) {
 	w.Bucket("probe/bitmap>=2^31-bits")
 	w.Distinct(gen.Hash64(0x12b16, 1))
 	w.Sample(func() interface{} { return mon.D{"nwords": []int{1<<25 - 1, 1 << 25}, "set_bits": set} })
+}
+
+// c12Top (round 12): position lists that end at the largest positions an int32 can name (last+1 = 2^31 is no int32) and
+// the bitmaps of 2^25 words that go with them: Of, ToArray, the round trips, Builder.
+func c12Top(w *mon.W, _ int) {
+	const top = int32(1<<31 - 1)
+	for li, l := range [][]int32{{0, top}, {5, 64, 1 << 30, top - 64, top - 1}, {top - 63}, {top}, {3, top - 2, top - 1, top}} {
+		nbits := int64(l[len(l)-1]) + 1
+		nw := int((nbits + 63) / 64)
+		for variant := 0; variant < 3; variant++ {
+			var got []uint64
+			w.Op, w.A, w.B = "Of(positions up to MaxInt32)", int64(li), int64(variant)
+			switch variant {
+			case 0:
+				got = bitmap.Of(l)
+			case 1:
+				got = bitmap.Of(l, top) // a size that is itself the largest int32
+				if int64(top) > nbits {
+					nw = int((int64(top) + 63) / 64)
+				}
+			default:
+				got = bitmap.Of(l, 0)
+			}
+			w.Tick()
+			if len(got) != nw {
+				w.Fail("Of/word-count/top-of-int32", mon.D{"positions": l, "variant": variant, "got_words": len(got), "expected_words": nw})
+				return
+			}
+			pop := 0
+			for k, x := range got {
+				if x != 0 {
+					for b := 0; b < 64; b++ {
+						if x>>uint(b)&1 == 1 {
+							pop++
+							p := int64(k)*64 + int64(b)
+							found := false
+							for _, q := range l {
+								if int64(q) == p {
+									found = true
+								}
+							}
+							if !found {
+								w.Fail("Of/bits/top-of-int32", mon.D{"positions": l, "stray_bit": p})
+								return
+							}
+						}
+					}
+				}
+			}
+			if pop != len(l) {
+				w.Fail("Of/bits/top-of-int32", mon.D{"positions": l, "bits_set": pop})
+				return
+			}
+			w.Tick()
+			w.Op = "ToArray(bitmap of up to 2^31 bits)"
+			back := bitmap.ToArray(got)
+			w.Tick()
+			if !eqI32(back, l) {
+				w.Fail("ToArray(Of(l))!=l/top-of-int32", mon.D{"positions": l, "nwords": len(got), "got": trunc32(back, 12)})
+				return
+			}
+			w.Eval(2)
+			for _, p := range l {
+				if bitmap.Get1(got, p) != 1 || bitmap.SafeGet1(got, p) != 1 || bitmap.Get(got, p) == 0 || bitmap.SafeGet(got, p) == 0 {
+					w.Fail("Get/top-of-int32", mon.D{"positions": l, "i": p})
+					return
+				}
+			}
+		}
+	}
+	w.Bucket("positions-up-to-maxint32")
+	w.Distinct(gen.Hash64(0x2b12, 5))
+	w.Sample(func() interface{} { return mon.D{"what": "Of / ToArray / Get* on lists ending at MaxInt32 (bitmaps of 2^25 words)"} })
 }
